@@ -1,9 +1,33 @@
-(* C05 — Melt inputs follow the Lightning outcome
-   Statements only; every proof is `exact <lemma>` into Mint/*.v (model: Mint/Model.v, semantics: Mint/Sem.v). *)
+(* C05 - Melt inputs follow the Lightning outcome: spent iff paid, released iff failed
+   Statements only; every proof is `exact <lemma>` into coq/Mint/*.v.
+
+   Reading guide (definitions in coq/Mint/*.v):
+     world            = store (tables spent/pending/signatures/mint quotes/melt quotes/keysets) + Lightning environment
+                        (invoices, scripted answers, log of pay calls) + the process memory (keysets, active keyset)
+     op               = one request (OSwap, OMint, OMelt, OMeltQuote, OMintQuote, OMintState, OMeltState, OCheck, ORestore,
+                        ORotate, ORestart, OWatcher, OBalance, OInfo) or environment step (ESettle, EScriptPay/Look, ...)
+     op_prog          = the request as a program over storage/Lightning calls, following mint/mint.go call by call
+     run p f w        = run program p from world w; f: which call positions get an injected storage error (no_fault: none)
+     run_n n p f w    = the same, but the process dies after n calls
+     step cfg f w o   = one request run to completion; run_history / reach: a sequential fault-free history from the empty store
+     hrun cfg w h     = a history of items: HNormal o | HFault o f | HCrash o n | HConc ops schedule (interleaving at call granularity)
+     WInv w           = every table has unique keys (Y, B_, quote ids, keyset ids)
+     Good w           = WInv w and no Y is both spent and pending
+     wext w w'        = spent and signature tables of w' extend those of w (nothing removed or altered)
+     same_but_calls   = nothing changed but the call counter
+     settled w h      = the backend reports the own invoice with payment hash h as settled
+
+   ambiguous = any answer that is not a definitive success or failure; look_ambiguous w = every scripted lookup answer is ambiguous.
+*)
 From Coq Require Import ZArith List Bool.
-From Verif Require Import Model Sem InvDb InvSwap InvMint InvMelt Corollaries Queries.
+From Verif Require Import Model Sem InvDb InvSwap InvMint InvMelt Corollaries Queries Footprint HRel Global GlobalQuote GlobalValue GlobalErr GlobalQuery GlobalMelt GlobalKeys Cuts.
 Import ListNotations.
 Open Scope Z_scope.
+
+Theorem C05_ambiguous_backend_never_resolves : forall (cfg : config) (h : list op) (w : world),
+       Good w -> look_ambiguous w -> Forall is_poll h -> w_db (fst (run_history cfg w h)) = w_db w.
+Proof. exact @ambiguous_backend_never_resolves. Qed.
+Print Assumptions C05_ambiguous_backend_never_resolves.
 
 Theorem C05_poll_spec : forall (id : Z) (w : world),
        WInv w ->
@@ -24,7 +48,8 @@ Theorem C05_poll_spec : forall (id : Z) (w : world),
                then
                 r = Ok (with_state q 2 (a_pre a)) /\
                 d_spent (w_db w') = d_spent (w_db w) ++ map unquote rows /\
-                d_pending (w_db w') = filter (fun r0 : prow => negb (mem (r_y r0) (ys_of rows))) (d_pending (w_db w)) /\
+                d_pending (w_db w') =
+                filter (fun r0 : prow => negb (mem (r_y r0) (ys_of rows))) (d_pending (w_db w)) /\
                 d_lq (w_db w') = upd_lq id (a_pre a) 2 (d_lq (w_db w)) /\
                 d_sigs (w_db w') = d_sigs (w_db w) /\ d_mq (w_db w') = d_mq (w_db w)
                else
@@ -84,7 +109,17 @@ Theorem C05_poll_ambiguous_noop : forall (id : Z) (w : world) (q : lquote),
        find_lq id (d_lq (w_db w)) = Some q ->
        lq_state q = 1 ->
        let a := next_look w (lq_hash q) in
-       a_kind a = 2 \/ a_kind a = 3 \/ a_kind a = 4 -> w_db (fst (run (get_melt_quote_state id) no_fault w)) = w_db w.
+       a_kind a = 2 \/ a_kind a = 3 \/ a_kind a = 4 ->
+       w_db (fst (run (get_melt_quote_state id) no_fault w)) = w_db w.
 Proof. exact @poll_ambiguous_noop. Qed.
 Print Assumptions C05_poll_ambiguous_noop.
+
+Theorem C05_poll_good : forall (id : Z) (w : world), Good w -> Good (fst (run (get_melt_quote_state id) no_fault w)).
+Proof. exact @poll_good. Qed.
+Print Assumptions C05_poll_good.
+
+Theorem C05_melt_good : forall (cfg : config) (mem_ks : list ksrow) (id : Z) (ins : list proof) (w : world),
+       Good w -> Good (fst (run (melt_tokens cfg mem_ks id ins) no_fault w)).
+Proof. exact @melt_good. Qed.
+Print Assumptions C05_melt_good.
 
